@@ -253,8 +253,17 @@ static int run_program(const std::string& line, int fd) {
               else if (sc == '3') snprintf(b, sizeof b, "'%.40s'", WKT[a[q].u]); else if (sc == '4') snprintf(b, sizeof b, "\"%s\"", (const char*)a[q].p);
               else snprintf(b, sizeof b, "%u", a[q].u);
               dsc += (q ? "," : ""); dsc += b;
+              if (objh[q] >= 0 && objh[q] < (int)pool.size() && pool[objh[q]].kind == 'S' && pool[objh[q]].p) {
+                  unsigned sz = 0, dm = 0; GEOSCoordSeq_getSize_r(H, (const GEOSCoordSequence*)pool[objh[q]].p, &sz); GEOSCoordSeq_getDimensions_r(H, (const GEOSCoordSequence*)pool[objh[q]].p, &dm);
+                  char nb[64]; snprintf(nb, sizeof nb, "{n=%u,m=%u}:Seq", sz, dm); dsc += nb;
+              }
               if (objh[q] >= 0 && objh[q] < (int)pool.size() && pool[objh[q]].kind == 'G' && pool[objh[q]].p) {
                   char* ty = GEOSGeomType_r(H, (const GEOSGeometry*)pool[objh[q]].p); int e = GEOSisEmpty_r(H, (const GEOSGeometry*)pool[objh[q]].p);
+                  { char nb[64]; int ng = GEOSGetNumGeometries_r(H, (const GEOSGeometry*)pool[objh[q]].p);
+                    int tid = GEOSGeomTypeId_r(H, (const GEOSGeometry*)pool[objh[q]].p);
+                    int extra = tid == GEOS_POLYGON || tid == GEOS_CURVEPOLYGON ? GEOSGetNumInteriorRings_r(H, (const GEOSGeometry*)pool[objh[q]].p)
+                              : (tid == GEOS_LINESTRING || tid == GEOS_LINEARRING || tid == GEOS_CIRCULARSTRING) ? GEOSGeomGetNumPoints_r(H, (const GEOSGeometry*)pool[objh[q]].p) : -1;
+                    snprintf(nb, sizeof nb, "{n=%d,m=%d}", ng, extra); dsc += nb; }
                   if (ty) { dsc += std::string(":") + ty + (e == 1 ? "[EMPTY]" : "") + (has_empty_part((const GEOSGeometry*)pool[objh[q]].p, 0) ? "[EMPTYPART]" : "") + coord_flags((const GEOSGeometry*)pool[objh[q]].p); GEOSFree_r(H, ty); }
               }
           }
@@ -310,6 +319,19 @@ static int run_program(const std::string& line, int fd) {
             r = invoke(fn, sig, a);
         }
         alarm(0); double ms = now_ms() - t0;
+        // a result that is out of range by the harness's own count is not used further (the entry point accepted a bad index)
+        if (r.p && (name == "GEOSGetGeometryN_r" || name == "GEOSGetInteriorRingN_r") && g_errs == 0) {
+            int cntN = name == "GEOSGetGeometryN_r" ? GEOSGetNumGeometries_r(H, (const GEOSGeometry*)a[0].p) : GEOSGetNumInteriorRings_r(H, (const GEOSGeometry*)a[0].p);
+            if (a[1].i < 0 || a[1].i >= cntN) { say(fd, "V %d %s out-of-range-index-accepted count=%d\n", (int)k, cur_desc, cntN); r.p = nullptr; g_errs = 1; }
+        }
+        // health check of a geometry result while the call is still the current one: it must be writable and describable
+        if (r.p && (res == 'G' || res == 'g')) {
+            alarm(per_call_s);
+            std::string hx = wkb_hex((const GEOSGeometry*)r.p); (void)hx;
+            char* ty = GEOSGeomType_r(H, (const GEOSGeometry*)r.p); if (ty) GEOSFree_r(H, ty);
+            (void)has_empty_part((const GEOSGeometry*)r.p, 0); (void)coord_flags((const GEOSGeometry*)r.p);
+            alarm(0);
+        }
         if (ms > maxms) { maxms = ms; slow = name; }
         // ---- error value <=> error handler
         char rt = sig.size() > 1 && sig[1] == ':' ? sig[0] : (res == '-' ? 'v' : 'p');
